@@ -126,6 +126,11 @@ func (g *c20Gen) claim() *c20Claim {
 		}
 	default:
 		c.Index = big.NewInt(int64(100000 + int(g.seed)))
+		if g.target.BitLen() > 32 && g.ch.Int(0, 1, "lowBitsDecoy") == 0 {
+			// an old-generation call whose 32-bit index equals the low bits of the event's (wider) global index: it is
+			// a different claim (the mainnet flag / rollup index differ)
+			c.Index = new(big.Int).And(g.target, big.NewInt(0xffffffff))
+		}
 		if c.Index.Cmp(g.target) == 0 {
 			c.Index.Add(c.Index, big.NewInt(1))
 		}
